@@ -143,7 +143,7 @@ proof fn lemma_inserted(rs: Seq<Range<usize>>, p: int, new: Range<usize>)
             forall|j: int| 0 <= j < i ==> apart(#[trigger] ranges@[j], new), // [Dc.inv.scanned_are_apart]
             forall|c: int| #[trigger] cov_or(ranges@, new, c) <==> cov_or(old(ranges)@, new0, c), // [Dc.inv.union_preserved]
         decreases ranges@.len() - i, // [Dc.term.merge_loop]
-//@edit rule=ghost before=<<{ position += 1;>>
+//@edit rule=ghost before=<<{ position +=>>
         invariant
             ranges_wf(ranges@),
             new.start < new.end,
@@ -165,11 +165,16 @@ spec fn line_bound(new: &str) -> int {
     if new.len() == 0 { 1 } else { new.len() as int }
 }
 
+/// every range ends at or before column `b`
+spec fn ranges_within(r: Seq<Range<usize>>, b: int) -> bool {
+    forall|i: int| 0 <= i < r.len() ==> (#[trigger] r[i]).end <= b
+}
+
 //@unit id=Dd file=src/diff_parser.rs fn=line_diff ret=r
 //@contract
     ensures
         ranges_wf(r@), // [Dd.post.ranges_wf]
-        forall|i: int| 0 <= i < r@.len() ==> (#[trigger] r@[i]).end <= line_bound(new), // [Dd.post.ranges_within_line]
+        ranges_within(r@, line_bound(new)), // [Dd.post.ranges_within_line]
 //@edit rule=E3 find=<<new.char_indices().map(|(offset, _)| offset).collect()>>
 verif_char_byte_offsets(new)
 //@closure rule=E12 find=<<|char_index: usize|>> params=<<|char_index: usize|>> ret=<<b: usize>>
